@@ -10,6 +10,7 @@ import (
 	"fmt"
 	"io"
 	"log"
+	"math"
 	"strconv"
 	"sync"
 	"time"
@@ -275,6 +276,12 @@ func (tdsChan *Channel) handleSpecialPackage(pkg Package) (bool, error) {
 				if err != nil {
 					return false, fmt.Errorf("error parsing new packet size '%s' to int: %w",
 						member.NewValue, err)
+				}
+				// A packet must have room for at least one byte of
+				// data and its length is transmitted as uint16.
+				if packSize <= PacketHeaderSize || packSize > math.MaxUint16 {
+					return false, fmt.Errorf("invalid new packet size %d, expected a value between %d and %d",
+						packSize, PacketHeaderSize+1, math.MaxUint16)
 				}
 				tdsChan.tdsConn.packetSize = packSize
 			}
